@@ -406,7 +406,28 @@ func ruleC02_5(c *Ctx) {
 	}
 	fn := fname(f)
 	lm := firstCall(f, "in_toto.LoadMetadata")
+	// how the directory is listed: the files that match the naming format in the directory itself
+	for _, g := range append([]*ssa.Function{f}, f.AnonFuncs...) {
+		for _, call := range allCalls(g) {
+			switch n := calleeName(call); n {
+			case "path/filepath.Walk", "path/filepath.WalkDir", "io/fs.WalkDir":
+				c.bad(R, fn, "directory listing", call.Pos(), "the link files are found with "+n+", which descends into every sub-directory unless the callback returns SkipDir for it: the link directories of nested sublayouts (<step>.<keyid>/) lie below this one, so their links are taken as evidence for this layout")
+			case "os.ReadDir", "(*os.File).Readdirnames", "(*os.File).ReadDir", "(*os.File).Readdir", "io/ioutil.ReadDir":
+				c.undecided(R, fn, "directory listing", call.Pos(), "the link files are found with "+n+" and a hand-written name filter, not with filepath.Glob over the naming format: which names are accepted is not decided here")
+			}
+		}
+	}
 	if lm == nil {
+		inClosure := ""
+		for _, g := range f.AnonFuncs {
+			if firstCall(g, "in_toto.LoadMetadata") != nil {
+				inClosure = fname(g)
+			}
+		}
+		if inClosure != "" {
+			c.bad(R, fn, "LoadMetadata", f.Pos(), "link files are loaded inside the function literal "+inClosure+" (a directory-walk callback): the rules about skipping, naming and filing of link files are decided for a loop over filepath.Glob results only")
+			return
+		}
 		c.bad(R, fn, "LoadMetadata", f.Pos(), "link files are not loaded through LoadMetadata")
 		return
 	}
